@@ -875,7 +875,9 @@ fn emit_trace(
             }
             "w" => {
                 dev.write(e.a, &e.data);
-                events.push(json!({"e": "w", "w": absdev::classify_write(e.a, &e.data, fmt, total_blocks, &gens)}));
+                let mut w = absdev::classify_write(e.a, &e.data, fmt, total_blocks, &gens);
+                if w["kind"] == "d" { w["tear"] = json!(dev.last_tear_flags()); }
+                events.push(json!({"e": "w", "w": w}));
             }
             "fsync" => {
                 dev.fsync();
@@ -963,7 +965,9 @@ fn emit_trace(
                     let data = absdev::unhex(w["hex"].as_str().unwrap_or(""));
                     let sec = w["s"].as_u64().unwrap_or(0);
                     dev2.write(sec, &data);
-                    ev2.push(json!({"e": "w", "w": absdev::classify_write(sec, &data, fmt, total_blocks, &gens)}));
+                    let mut wj = absdev::classify_write(sec, &data, fmt, total_blocks, &gens);
+                    if wj["kind"] == "d" { wj["tear"] = json!(dev2.last_tear_flags()); }
+                    ev2.push(json!({"e": "w", "w": wj}));
                 } else {
                     dev2.fsync();
                     ev2.push(json!({"e": "fsync"}));
@@ -972,7 +976,15 @@ fn emit_trace(
                     if cuts2.len() >= 400 { break; }
                     let p = format!("{dir}/n{ci}{suffix}_{}.bin", cuts2.len());
                     std::fs::write(&p, dev2.image(&s)).expect("write nested image");
-                    cuts2.push(Cut { at_event: ev2.len() - 1, now: c.now, units: s, torn: Vec::new(), img: p });
+                    let tearable = dev2.tearable(&s);
+                    cuts2.push(Cut { at_event: ev2.len() - 1, now: c.now, units: s.clone(), torn: Vec::new(), img: p });
+                    // recovery's own writes tear as well (a marker over a stale head, a multi-sector journal image)
+                    for t in tearable {
+                        if cuts2.len() >= 400 { break; }
+                        let p = format!("{dir}/n{ci}{suffix}_{}.bin", cuts2.len());
+                        std::fs::write(&p, dev2.image_torn(&s, &[t])).expect("write nested image");
+                        cuts2.push(Cut { at_event: ev2.len() - 1, now: c.now, units: s.clone(), torn: vec![t], img: p });
+                    }
                 }
             }
             let res2 = recover_images(&cuts2, keys, ttl, dir, o.num("jobs", 6), false);
